@@ -367,24 +367,33 @@ def matrix_pivot(m, sign=False):
     :return: a tuple containing the matrix product of M x P, P and det(P)
     :rtype: tuple
     """
-    mp = deepcopy(m)
+    mp = [list(row) for row in m]
     n = len(mp)
     p = deepcopy(matrix_identity(n))  # permutation matrix
+    # The pivots are chosen on a copy of the matrix which is eliminated column by column (partial pivoting). The column
+    # maxima of the input matrix itself do not guarantee non-zero pivots for the LU decomposition of M x P.
+    me = [[float(val) for val in row] for row in m]
     num_rowswap = 0
     for j in range(0, n):
         row = j
         a_max = 0.0
         for i in range(j, n):
-            a_abs = abs(mp[i][j])
+            a_abs = abs(me[i][j])
             if a_abs > a_max:
                 a_max = a_abs
                 row = i
         if j != row:
             num_rowswap += 1
-            for q in range(0, n):
-                # Swap rows
-                p[j][q], p[row][q] = p[row][q], p[j][q]
-                mp[j][q], mp[row][q] = mp[row][q], mp[j][q]
+            # Swap rows
+            p[j], p[row] = p[row], p[j]
+            mp[j], mp[row] = mp[row], mp[j]
+            me[j], me[row] = me[row], me[j]
+        if me[j][j] != 0.0:
+            for i in range(j + 1, n):
+                factor = me[i][j] / me[j][j]
+                if factor != 0.0:
+                    for q in range(j, n):
+                        me[i][q] -= factor * me[j][q]
     if sign:
         return mp, p, math.pow(-1, num_rowswap)
     return mp, p
